@@ -109,7 +109,8 @@ def _small_mdg(rng):
 
 def _split(rng):
     return {"seed": int(rng.integers(1, 2**31)),
-            "secondary": str(rng.choice(["blocks", "single", "dense"], p=[0.65, 0.1, 0.25])),
+            "secondary": str(rng.choice(["blocks", "ones", "single", "dense"],
+                                        p=[0.5, 0.15, 0.1, 0.25])),
             "p_primary": float(rng.choice([0.3, 0.5, 0.7])),
             "whole": bool(rng.random() < 0.4)}
 
@@ -143,7 +144,8 @@ def floor(tier):
             {"seed": 1 + k, "secondary": "blocks", "p_primary": 0.5, "whole": True},
             {"seed": 11 + k, "secondary": "blocks", "p_primary": 0.5, "whole": False},
             {"seed": 21 + k, "secondary": "dense", "p_primary": 0.3, "whole": False},
-            {"seed": 31 + k, "secondary": "single", "p_primary": 0.7, "whole": True}]})
+            {"seed": 31 + k, "secondary": "single", "p_primary": 0.7, "whole": True},
+            {"seed": 41 + k, "secondary": "ones", "p_primary": 0.5, "whole": bool(k % 2)}]})
     out.append({"layer": "model", "fracs": [0, 1], "seed": 5})
     return out
 
@@ -186,6 +188,9 @@ def _structured_J(rng, n, rows_p, rows_s, cols_p, cols_s, secondary):
         sizes = []
         while sum(sizes) < ns:
             sizes.append(int(min(rng.integers(1, 5), ns - sum(sizes))))
+    elif secondary == "ones":
+        # permuted diagonal: every block has size 1, rows and columns permuted differently
+        sizes = [1] * ns
     else:
         sizes = [ns]
     B = np.zeros((ns, ns))
